@@ -16,7 +16,12 @@ pub fn run(sh: &mut Shell, cl: &CommandLine, cmd: &Command,
         return cr;
     }
 
+    // run_script() clears the exit-on-error option when it returns (it is
+    // meant to be per script); sourcing a file must not cancel a `set -e`
+    // of the script that sources it.
+    let exit_on_error = sh.exit_on_error;
     let status = scripting::run_script(sh, &args);
+    sh.exit_on_error = exit_on_error;
     cr.status = status;
     cr
 }
